@@ -100,6 +100,23 @@ Theorem C03_poll_next_hands_over_the_head : forall fuel cid w H r H',
     end.
 Proof. exact Fifo.poll_next_hands_over_the_head. Qed.
 
+(* ... and the hosting future appends exactly that event (through its event mapping) to the BACK of its own command's
+   queue, once, and polls again: one hop of the way up keeps the order. *)
+Theorem C03_host_appends_the_event_once_and_polls_again : forall f c w fs H x meff mev k e H1,
+  f_leaf fs = LHost x meff mev k -> poll_next f x w H = Some (PNEvent e, H1) ->
+  poll (S f) c w fs H = poll f c w fs (push_ev c (map_ev mev e) H1) /\
+  c_evs (gcmd c (push_ev c (map_ev mev e) H1)) = c_evs (gcmd c H1) ++ [map_ev mev e].
+Proof.
+  intros f c w fs H x meff mev k e H1 EL E. split; [eapply Fifo.host_hop_event; eassumption | apply Fifo.push_ev_appends].
+Qed.
+(* ... and at the top the executor task moves it, in the same way, to the back of the core's event channel, whose
+   pipeline only grows at its end (C03_pipeline_only_grows). *)
+From Crux Require Rt.CoreOrd.
+Theorem C03_executor_task_moves_the_event_to_the_back_of_the_channel : forall FUEL f q k cid e H1,
+  xget q (k_slab k) = Some cid -> poll_next FUEL cid (WExec q) (k_H k) = Some (PNEvent e, H1) ->
+  xrun_task FUEL (S f) q k = xrun_task FUEL f q (mkC H1 (k_spawn k) (k_slab k) (k_events k ++ [e]) (k_out k) (k_log k) (k_reqs k)).
+Proof. exact CoreOrd.xrun_task_moves_event. Qed.
+
 (* NOT proved (carried by the correspondence: the runtime model's traces, which fix the order of every log,
    are compared with the implementation's on every generated case): that two events emitted by ONE task deep
    inside nested commands keep their order on the whole way up to the core's channel.  Stating it needs the
